@@ -11,6 +11,7 @@ sub-process, the point array is unchanged (bytes and dtype)."""
 import importlib
 import itertools
 import json
+import math
 import os
 import subprocess
 import sys
@@ -331,6 +332,22 @@ def lattice_sweep(task):
         if msgs:
             return count, msgs
         first.append(h.value)
+    if task.get("decimal"):
+        # integer grid nodes of the box spelled as integers (int64 array, Python int list): the same value as the floats
+        ints = [sorted({int(v) for v in (math.ceil(lo[i]), math.floor(up[i]), math.ceil((lo[i] + up[i]) / 2), 0, 1)
+                        if lo[i] <= v <= up[i]}) for i in range(n)]
+        if all(ints):
+            for c in itertools.islice(itertools.product(*ints), 0, 200):
+                vf = obj.Calculate(Point(np.array(c, dtype=np.double), []), holder(fid)).value
+                for form, arr in (("an int64 array", np.array(c, dtype=np.int64)), ("a list of Python ints", list(c))):
+                    count += 1
+                    try:
+                        vi = obj.Calculate(Point(arr, []), holder(fid)).value
+                    except Exception as e:
+                        return count, [f"{fam}{spec['keys'][ki]}: Calculate at {list(c)} given as {form} raised {type(e).__name__}: {e}"]
+                    if not (vi == vf or (vi != vi and vf != vf)):
+                        return count, [f"{fam}{spec['keys'][ki]}: value at {list(c)} is {vf!r} for floats and {vi!r} for the same "
+                                       f"point given as {form}"]
     for c, v in zip(itertools.product(*axes), first):
         got = obj.Calculate(Point(np.array(c, dtype=np.double), []), holder(fid)).value
         count += 1
